@@ -19,6 +19,11 @@ def _print(x):
 def judge_case(prop, case, body):
     """(outcome, list of violated clause tags) for a recorded concrete input; None if this kind of input is unknown"""
     root = REPO
+    if isinstance(case, dict) and "class" in case and "inputs" in case and case.get("then"):
+        from . import cmdprops, replay as R
+
+        o = R.run_real([case], repo_root=root)[0]
+        return o.get("then"), [b[0] for b in cmdprops.judge_immutability(case, o)]
     if isinstance(case, dict) and "class" in case and "inputs" in case:
         from . import cmdprops
 
@@ -50,6 +55,8 @@ def judge_case(prop, case, body):
         from . import iocases
 
         o = iocases.run_real([case], root)[0]
+        if prop == "C09":
+            return {"before": o.get("inputs_before"), "after": o.get("inputs_after")}, (["frame"] if o.get("inputs_after") != o.get("inputs_before") else [])
         j = iocases.judge_csv if case["kind"].startswith("csv_") else iocases.judge_nc
         return o, [b[0] for b in j(case, o)]
     if isinstance(case, dict) and "commands" in case and "actions" in case:
@@ -88,6 +95,8 @@ def judge_case(prop, case, body):
             from . import evalcases as E
 
             return {k: v for k, v in o.items() if k != "results"}, [b[0] for b in E.judge(case["model"], case, o)]
+        if case.get("expect_cyclic"):
+            return o, [b[0] for b in L.judge_cyclic(case, o)]
         if label.startswith("command-line:"):
             return o, [b[0] for b in L.judge_cmdline(case, o)]
         if case.get("mode") == "cli":
